@@ -207,6 +207,7 @@ static void e2(char* history) {
         int nf = (curStep = step, hx_split(ops[step], ',', f, 6)), ns = atoi(f[nf - 1]), i1 = atoi(f[1]), i2 = nf > 3 ? atoi(f[2]) : 0, terr = 0;
         U32 e = 0, fd1 = NAMES[i1].sel ? 4 : 3, fd2 = NAMES[i2].sel ? 4 : 3, strayAt;
         struct stat st;
+        errno = EXDEV;      /* environment: errno holds an unrelated stale value when a WASI call begins; no result may depend on it */
         nameFor(i1, dirA, ga, ha, sizeof ga); nameFor(i1, dirB, gb, hb, sizeof gb);
         nameFor(i2, dirA, ga2, ha2, sizeof ga2); nameFor(i2, dirB, gb2, hb2, sizeof gb2);
         hx_put(NP, ga, strlen(ga)); hx_put(NP2, ga2, strlen(ga2));
@@ -310,6 +311,7 @@ static int oneCall(U32 fd, U64 cookie, int callNo, U64 lastComplete, const char*
     memset(hx_mem.data + bufPtr, FILL, bufLen);
     hx_set_u32(RES, 0xAAAAAAAA);
     hx_snapshot(); hx_allow(RES, 4); hx_allow(bufPtr, bufLen);
+    errno = ENOENT;     /* a stale value from some earlier, unrelated failure */
     e = NS(nsE3, fd_readdir)(I, fd, bufPtr, bufLen, cookie, RES);
     callsE3++;
     got = hx_u32(RES);
